@@ -154,11 +154,14 @@ Definition parent_at (d : nat) (anc : list str) : option str :=
 
 (* a preorder (depth, written name) list, the empty name standing for "written without a name":
    every nameless entry receives [imp] of its parent's (resolved) name *)
+(* the written name, or [dflt] when no name was written *)
+Definition name_or (n dflt : str) : str := match n with [] => dflt | _ :: _ => n end.
+
 Fixpoint resolve_names (imp : option str -> str) (anc : list str) (l : list (nat * str)) : list (nat * str) :=
   match l with
   | [] => []
   | (d, n) :: rest =>
-      let name := match n with [] => imp (parent_at d anc) | _ :: _ => n end in
+      let name := name_or n (imp (parent_at d anc)) in
       (d, name) :: resolve_names imp (firstn d anc ++ [name]) rest
   end.
 
@@ -175,9 +178,7 @@ Proof.
   assert (Ep : imp1 (parent_at d anc) = imp2 (parent_at d anc)).
   { destruct d as [|k]; [exact H0|]. cbn [parent_at]. destruct (nth_error anc k) as [p|] eqn:E; [|exact H0].
     apply H1. rewrite Forall_forall in Ha. apply Ha. eapply nth_error_In, E. }
-  assert (En : match n with [] => imp1 (parent_at d anc) | _ :: _ => n end =
-               match n with [] => imp2 (parent_at d anc) | _ :: _ => n end) by (destruct n; [exact Ep|reflexivity]).
-  rewrite En. f_equal. apply IH; [|exact Hr].
+  rewrite Ep. f_equal. apply IH; [|exact Hr].
   apply Forall_app. split.
   - rewrite Forall_forall in *. intros x Hx. apply Ha. rewrite <- (firstn_skipn d anc). apply in_or_app. left. exact Hx.
   - constructor; [|constructor]. destruct n; [apply H2|apply Hn; discriminate].
